@@ -50,7 +50,7 @@ class DSOLModel(ModelInterface):
 
     def set_parameter(self, key: str, value: object):
         """set the parameter value of an input parameter."""
-        self._input_parameters.get(key).value = value
+        self._input_parameters.get(key).set_value(value)
         
     def get_parameter(self, key: str) -> object:
         """return the value of an input parameter."""
